@@ -14,7 +14,10 @@
 //! Each node has some fast (but fallible) nodes and a fallback node, with different algorithms to
 //! claim them (see the relevant submodules).
 
+#[cfg(not(arc_swap_verif))]
 use core::sync::atomic::AtomicUsize;
+#[cfg(arc_swap_verif)]
+use arc_swap_verif_rt::atomic::AtomicUsize;
 use core::sync::atomic::Ordering::*;
 
 pub(crate) use self::list::{LocalNode, Node};
